@@ -273,29 +273,9 @@ return (v1, v4)
 """
 
 
-def gen_border(parts):
-    src, tree = T.load(BORDER)
-    out = []
-    # ---------------- extract_border_cycle
-    fn = T.find_def(tree, "extract_border_cycle", BORDER)
-    parts.append(("border.extract_border_cycle", T.sha(src, fn)))
-    if [a.arg for a in fn.args.args] != ["mesh", "starting_point"] or len(fn.args.defaults) != 1 \
-            or not (isinstance(fn.args.defaults[0], ast.Constant) and fn.args.defaults[0].value is None):
-        T.fail(BORDER, fn, "signature is not (mesh, starting_point=None)")
+def cycle_defs(h, NV, MX):
     W = "extract_border_cycle"
-    lines = canon_fn(fn, BORDER)
-    # the two independent initialisations `nvisited = 0` / `MAX_VISITED = len(...)` may come in either order
-    first_err = None
-    for NV, MX in (("v6", "v7"), ("v7", "v6")):
-        t = CYCLE_T.replace("@NV@ = {{nvisited0}}\n@MX@ = {{max_visited}}",
-                            "\n".join(sorted(["%s = {{nvisited0}}" % NV, "%s = {{max_visited}}" % MX])))
-        try:
-            h = match_lines(BORDER, W, lines, t)
-            break
-        except TranslationError as ex:
-            first_err = first_err or ex
-    else:
-        raise first_err
+    out = []
     e = Ex(BORDER, W, {"len(v0.boundary_vertices)": ("Z", "nb")})
     out.append("Definition cyc_no_border (nb : Z) : bool := %s." % e.b(e.parse(h["no_border"])))
     e = Ex(BORDER, W, {})
@@ -323,6 +303,33 @@ def gen_border(parts):
     out.append("Definition cyc_nvisited_step (n : Z) : Z := %s." % e.z(e.parse(aug(BORDER, W, h["step"], NV))))
     e = Ex(BORDER, W, penv)
     out.append("Definition cyc_last_e (p1 p2 : Z) : Z * Z := (%s, %s)." % e.pair(h["last_e"]))
+
+    return out
+
+
+def gen_border(parts):
+    src, tree = T.load(BORDER)
+    out = []
+    # ---------------- extract_border_cycle
+    fn = T.find_def(tree, "extract_border_cycle", BORDER)
+    parts.append(("border.extract_border_cycle", T.sha(src, fn)))
+    if [a.arg for a in fn.args.args] != ["mesh", "starting_point"] or len(fn.args.defaults) != 1 \
+            or not (isinstance(fn.args.defaults[0], ast.Constant) and fn.args.defaults[0].value is None):
+        T.fail(BORDER, fn, "signature is not (mesh, starting_point=None)")
+    W = "extract_border_cycle"
+    lines = canon_fn(fn, BORDER)
+    # the two independent initialisations `nvisited = 0` / `MAX_VISITED = len(...)` may come in either order
+    first_err = None
+    for NV, MX in (("v6", "v7"), ("v7", "v6")):
+        t = CYCLE_T.replace("@NV@ = {{nvisited0}}\n@MX@ = {{max_visited}}",
+                            "\n".join(sorted(["%s = {{nvisited0}}" % NV, "%s = {{max_visited}}" % MX])))
+        try:
+            out += cycle_defs(match_lines(BORDER, W, lines, t), NV, MX)
+            break
+        except TranslationError as ex:
+            first_err = first_err or ex
+    else:
+        raise first_err
 
     # ---------------- extract_border_cycle_all
     fn = T.find_def(tree, "extract_border_cycle_all", BORDER)
@@ -439,6 +446,7 @@ return v2
 CORNERS_T = """
 if v1.vertices.has_attribute('corners'):
     v0.corners = v1.vertices.get_attribute('corners')
+    v0.corners.clear()
 else:
     v0.corners = v1.vertices.create_attribute('corners', int)
 v2 = corner_angles(v1, persistent=False)
